@@ -25,7 +25,7 @@ from harness.common.lean import s2j
 from harness.common.svcgen import Config
 
 PROPERTY = "C10"
-LEAN_MODULES = ["VgiVerif.Proofs.C10"]
+LEAN_MODULES = ["VgiVerif.Proofs.C10", "VgiVerif.Findings.C10"]
 OBLIGATIONS = [
     "VgiVerif.C10.C10_shapes",
     "VgiVerif.C10.C10_inputs_schema",
@@ -455,24 +455,30 @@ def oracle(ctx: Any, case: dict[str, Any], m: dict[str, Any], ops: list[list[Any
             ctx.fail(case, f"C10:producer:data:{kindtag}", f"delivered {got}, emitted up to finish {ids}")
         elif term != [how]:
             ctx.fail(case, f"C10:producer:end:{kindtag}", f"stream ended with {term}, the script ends with {how}")
-    # --- exchange: one output per input, finish refused
-    if not producer and init_ok and all(op[0] == "send" for op in ops):
-        conforming = all({c[0] for c in op[1]["cols"]} == {f[0] for f in decl_fields} for op in ops)
-        for k, (op, t) in enumerate(zip(ops, r["trace"])):
-            step = m["steps"][k] if k < len(m["steps"]) else {"act": {"emit": {}}}
+    # --- exchange: every input that reached process() yields exactly one output; finish is refused with the RuntimeError
+    if not producer and init_ok:
+        for op, t, ev in zip(ops, r["trace"], r["events"][1:]):
+            if op[0] != "send":
+                continue
+            ks = [e[2] for e in ev if e[0] == "process"]
             nd = sum(1 for e in t if e[0] == "data")
             errs = [e for e in t if e[0] == "error"]
-            if errs:
-                if step["act"] == "finish" or (isinstance(step["act"], dict) and "emit_finish" in step["act"]):
-                    if conforming and not (errs[0][1] == "RuntimeError" and FINISH_MSG in errs[0][2]) and errs[0][1] != "TypeError":
-                        ctx.fail(case, f"C10:exchange:finish-error:{kindtag}", f"finish on an exchange stream reported {errs[0][:3]}")
-                break
-            if step["act"] == "finish" or (isinstance(step["act"], dict) and "emit_finish" in step["act"]):
-                ctx.fail(case, f"C10:exchange:finish-not-refused:{kindtag}", f"input {k}: finish() on an exchange stream was accepted")
-                break
-            if nd != 1:
-                ctx.fail(case, f"C10:exchange:cardinality:{kindtag}", f"input {k} produced {nd} outputs")
-                break
+            if not ks:
+                if nd:
+                    ctx.fail(case, f"C10:exchange:output-without-process:{kindtag}", f"an input produced {nd} outputs without a process() call")
+                continue
+            k = ks[0]
+            act = m["steps"][k]["act"] if k < len(m["steps"]) else {"emit": {}}
+            if isinstance(act, dict) and "emit" in act:
+                if nd != 1 or errs:
+                    ctx.fail(case, f"C10:exchange:cardinality:{kindtag}", f"input played step {k} (emit): {nd} outputs, errors {errs[:1]}")
+            elif act == "finish" or (isinstance(act, dict) and "emit_finish" in act):
+                if nd or not errs:
+                    ctx.fail(case, f"C10:exchange:finish-not-refused:{kindtag}", f"step {k}: finish() on an exchange stream was accepted ({t})")
+                elif not (errs[0][1] == "RuntimeError" and FINISH_MSG in errs[0][2]):
+                    ctx.fail(case, f"C10:exchange:finish-error:{kindtag}", f"finish on an exchange stream reported {errs[0][:3]}")
+            elif nd or not errs:
+                ctx.fail(case, f"C10:exchange:failing-step-output:{kindtag}", f"step {k} ({act}) delivered {nd} outputs, errors {errs[:1]}")
     # --- cancel
     ci = next((i for i, op in enumerate(ops) if op[0] == "cancel"), None)
     slog = impl_slog(r["events"])
@@ -641,7 +647,7 @@ def run(ctx: Any) -> None:
     rng = ctx.rng
     for c in COERCE_CORPUS:
         check_coerce(ctx, c)
-    for _ in range(ctx.budget(1000, 20000)):
+    for _ in range(ctx.budget(1000, 30000)):
         check_coerce(ctx, gen_coerce_case(rng))
     for m, ops, cfgs in _corpus():
         for cfg in (cfgs if ctx.tier == "thorough" else cfgs[:1] + cfgs[2:4]):
@@ -649,7 +655,7 @@ def run(ctx: Any) -> None:
     exhaustive_grid(ctx)
     ctx.note("grid", "all step scripts of length <= 2 over {emit, finish, emit+finish, raise} x {producer, exchange} x every "
                      "cancel point x {pipe, http, http(cap 1e6)} enumerated")
-    for i in range(ctx.budget(100, 1500)):
+    for i in range(ctx.budget(100, 4000)):
         m = gen_method(rng)
         for cfg in configs_for(rng, m, ctx.tier == "thorough" and i % 3 == 0):
             ops = gen_ops(rng, m, cfg.kind == "http")
